@@ -226,7 +226,9 @@ pub fn main(layouts_json: &str, entries: &[Entry]) -> i32 {
         if e.build.is_some() {
             res.builder_layouts += 1;
         }
-        for j in 0..runs {
+        // narrow bases have a state space small enough to be covered densely: give them more runs
+        let runs_l = if l.bits <= 8 { runs * 6 } else if l.bits <= 16 { runs * 2 } else { runs };
+        for j in 0..runs_l {
             if t0.elapsed().as_secs_f64() > wall_cap {
                 capped = true;
                 break 'layouts;
